@@ -273,7 +273,8 @@ def run(ctx, chk, tier="quick"):
                 if kind == "rise":
                     # epoch[LIST[sid][0]] where LIST collects (index of the interval's start, ...)
                     import re as _re
-                    m = _re.match(r"^epoch\[(\w+)\[%s\]\[0\]\]$" % _re.escape(sid), txt)
+                    en_, _ln = _series_arrays(ctx, f)
+                    m = _re.match(r"^%s\[(\w+)\[%s\]\[0\]\]$" % (_re.escape(en_ or "epoch"), _re.escape(sid)), txt)
                     if m:
                         lst = m.group(1)
                         for c in ast.walk(f.node):
@@ -326,8 +327,9 @@ def run(ctx, chk, tier="quick"):
         okp = False
         if len(apps) == 1 and isinstance(apps[0].args[0], ast.Tuple) and len(apps[0].args[0].elts) == 2:
             a0, a1 = apps[0].args[0].elts
+            en_, ln_ = _series_arrays(ctx, rec)
             okp = isinstance(a0, ast.Subscript) and isinstance(a1, ast.Subscript) and ast.unparse(a0.slice) == ast.unparse(a1.slice) \
-                and ast.unparse(a0.value) == "epoch" and ast.unparse(a1.value) == "zeta_mm"
+                and ast.unparse(a0.value) == en_ and ast.unparse(a1.value) == ln_
         chk.ob("C13.O3", okp, where_of(rec, apps[0] if apps else rec.node), "series = %s" % (ast.unparse(apps[0].args[0]) if apps else "?"),
                "(times, levels) of the same sample indices of the interval", key="compute_offsets|series",
                why="levels taken with other indices than the times belong to a neighbour's samples")
@@ -456,6 +458,22 @@ def run(ctx, chk, tier="quick"):
                                                       for st in ctl.body for c in ast.walk(st))
     if not fired:
         chk.errors.append("C13.O6 positive control did not fire")
+
+
+def _series_arrays(ctx, f):
+    """(epoch array name, level array name) bound from the water_level query of f."""
+    for b in bindings(ctx, f):
+        if b.kind == "columns" and {x.table for x in b.site.stmt.sources} == {"water_level"}:
+            en = ln = None
+            for i, nm in enumerate(b.names):
+                e = b.site.stmt.columns[i][0]
+                if nm and e[0] == "col" and e[2] == "epoch":
+                    en = nm
+                if nm and e[0] == "col" and e[2] == "zeta_mm":
+                    ln = nm
+            if en and ln:
+                return en, ln
+    return None, None
 
 
 def _lazy_cursor(it):
